@@ -89,4 +89,26 @@ theorem C15_pgn_130313 : agreesOnFields pair_130313 layout_130313 = true := by d
 theorem C15_pgn_130314 : agreesOnFields pair_130314 layout_130314 = true := by decide +kernel
 theorem C15_pgn_130316 : agreesOnFields pair_130316 layout_130316 = true := by decide +kernel
 
+
+/-! Code points of the enumerated fields: the frozen published table against the enumerations as the translator reads
+them from the headers on this run. -/
+theorem C15_enum_TimeSource : enumAgrees enum_TimeSource enum_tN2kTimeSource = true := by decide +kernel
+theorem C15_enum_RudderDirectionOrder : enumAgrees enum_RudderDirectionOrder enum_tN2kRudderDirectionOrder = true := by decide +kernel
+theorem C15_enum_HeadingReference : enumAgrees enum_HeadingReference enum_tN2kHeadingReference = true := by decide +kernel
+theorem C15_enum_FluidType : enumAgrees enum_FluidType enum_tN2kFluidType = true := by decide +kernel
+theorem C15_enum_SpeedWaterReferenceType : enumAgrees enum_SpeedWaterReferenceType enum_tN2kSpeedWaterReferenceType = true := by decide +kernel
+theorem C15_enum_GNSStype : enumAgrees enum_GNSStype enum_tN2kGNSStype = true := by decide +kernel
+theorem C15_enum_GNSSmethod : enumAgrees enum_GNSSmethod enum_tN2kGNSSmethod = true := by decide +kernel
+theorem C15_enum_XTEMode : enumAgrees enum_XTEMode enum_tN2kXTEMode = true := by decide +kernel
+theorem C15_enum_DistanceCalculationType : enumAgrees enum_DistanceCalculationType enum_tN2kDistanceCalculationType = true := by decide +kernel
+theorem C15_enum_GNSSDOPmode : enumAgrees enum_GNSSDOPmode enum_tN2kGNSSDOPmode = true := by decide +kernel
+theorem C15_enum_WindReference : enumAgrees enum_WindReference enum_tN2kWindReference = true := by decide +kernel
+theorem C15_enum_TempSource : enumAgrees enum_TempSource enum_tN2kTempSource = true := by decide +kernel
+theorem C15_enum_HumiditySource : enumAgrees enum_HumiditySource enum_tN2kHumiditySource = true := by decide +kernel
+theorem C15_enum_PressureSource : enumAgrees enum_PressureSource enum_tN2kPressureSource = true := by decide +kernel
+theorem C15_enum_PGNList : enumAgrees enum_PGNList enum_tN2kPGNList = true := by decide +kernel
+/-- an exchanged pair of code points does not agree (the check is not vacuous) -/
+example : enumAgrees enum_WindReference [("N2kWind_True_North", 0), ("N2kWind_Magnetic", 1), ("N2kWind_Apparent", 2),
+    ("N2kWind_True_boat", 4), ("N2kWind_True_water", 3), ("N2kWind_Error", 6), ("N2kWind_Unavailable", 7)] = false := by decide +kernel
+
 end N2k.C15
